@@ -630,6 +630,12 @@ def simplify_boolean_expressions(source: str) -> str:
 
             continue
 
+        try:
+            core.literal_value(node)
+        except ValueError:
+            # E.g. (1,) < [1, 2]: the comparison itself raises, so it has no value
+            continue
+
         if isinstance(operator, ast.Eq):
             yield node, ast.Constant(value=left == right, kind=None)
 
